@@ -619,6 +619,7 @@ fn handle(req: &Value, st: &mut State) -> Value {
         "sqlparse" => op_sqlparse(req),
         "tokens" => op_tokens(req),
         "c17_enum" => c17::enumerate(req),
+        "c17_batch" => c17::batch(req),
         "db_open" => {
             let name = req.get("name").and_then(|v| v.as_str()).unwrap_or("").to_string();
             let conn = match rusqlite::Connection::open_in_memory() {
